@@ -159,9 +159,10 @@ class _Seq:
 class _Derive:
     """Evaluates list-valued expressions of one function to _Seq.  `None` = not a constructed collection (a source)."""
 
-    def __init__(self, fn, gm, what, ordered=True):
+    def __init__(self, fn, gm, what, ordered=True, resolve=None):
         self.fn, self.gm, self.what, self.ordered = fn, gm, what, ordered
         self.pm = find_parent_map(fn)
+        self.resolve = resolve or (lambda f: None)      # dotted name of an imported callee (e.g. 'itertools.compress')
 
     def und(self, msg):
         raise Undecided(f'{self.what}: {msg}')
@@ -203,6 +204,8 @@ class _Derive:
             return self.seq_of(a, at, depth + 1)
         if self._empty_ctor(e) is not None:
             return _Seq((('empty', u(e)), u(e), e), e, set(), ('other', 'nothing: an empty collection literal'), e, 'empty collection')
+        if isinstance(e, ast.Call) and self.resolve(e.func) == 'itertools.compress' and len(e.args) == 2 and not e.keywords:
+            return self.compress_form(e, at, depth)
         if not isinstance(e, ast.Name):
             return None
         n = e.id
@@ -240,6 +243,42 @@ class _Derive:
                 self.und(f'{n} is modified after it is built: {[u(g)[:40] for g in grow]}')
             return s
         return None
+
+    def compress_form(self, call, at, depth):
+        """itertools.compress(data, selectors): the items of data at the positions where the selector is true.  Evaluated when the
+        selectors are a list holding one condition per position of a source (unfiltered), and data is that source, its positions
+        (range(len(source))) or another unfiltered list over it."""
+        data, sel = call.args
+        s = self.seq_of(sel, at, depth + 1)
+        if s is None or s.filt or s.notes or s.how == 'empty collection':
+            self.und(f'selectors of {u(call)[:70]} are not a list with one entry per position of a source')
+        if s.elt == ELEM:
+            cond = ast.Name(id=ELEM, ctx=ast.Load())
+        elif isinstance(s.elt, tuple) and s.elt[0] == 'other' and _parse_expr(s.elt[1]) is not None:
+            cond = _parse_expr(s.elt[1])
+        else:
+            self.und(f'selector entries of {u(call)[:70]} are not a condition on the position: {s.elt}')
+        a = atoms(cond, True)
+        filt = a if a is not None else {('cond', 'holds', u(cond))}
+        if isinstance(data, ast.Call) and isinstance(data.func, ast.Name) and data.func.id == 'range' and len(data.args) == 1 and not data.keywords \
+                and isinstance(data.args[0], ast.Call) and isinstance(data.args[0].func, ast.Name) and data.args[0].func.id == 'len' and len(data.args[0].args) == 1:
+            x = data.args[0].args[0]
+            sx = self.seq_of(x, at, depth + 1)
+            same = (self.srckey(x, at)[0] == s.src[0]) if sx is None else (sx.src[0] == s.src[0] and not sx.filt)
+            if not same:
+                self.und(f'{u(call)[:70]}: positions of {u(x)}, selectors computed from {s.src[1]}: whether both have the same length is not evaluated')
+            elt = IDX
+        else:
+            sd = self.seq_of(data, at, depth + 1)
+            if sd is None:
+                if self.srckey(data, at)[0] != s.src[0]:
+                    self.und(f'{u(call)[:70]}: data {u(data)[:40]} is not the sequence the selectors were computed from ({s.src[1]})')
+                elt = ELEM
+            elif sd.src[0] == s.src[0] and not sd.filt and not sd.notes:
+                elt = sd.elt
+            else:
+                elt = ('other', f'item of {u(data)} (a list that is not position-aligned with the selectors)')
+        return _Seq(s.src, s.src_node, filt, elt, call, 'compress', ())
 
     # -- binders: what the loop / generator variables stand for
     def binder(self, target, it, at, depth):
@@ -562,6 +601,67 @@ def _null_id_guard(rep, m, fi, gset_param, attr_param, rets):
     return False, (seen + [f'{u(g)[:50]} only under {sorted(c)}' for (g, c) in guards if c] + [f'unguarded: {x}' for x in unguarded]) or 'no NULL-id guard'
 
 
+def _own_params(fi):
+    """The parameters a caller supplies: without cls / self for class and instance methods."""
+    ps = fi.params()
+    decos = {u(d) for d in fi.node.decorator_list}
+    return ps[1:] if fi.cls is not None and 'staticmethod' not in decos else ps
+
+
+def _body(fnode):
+    return [s for s in fnode.body if not (isinstance(s, ast.Expr) and isinstance(s.value, ast.Constant))]
+
+
+def _follow_delegation(m, fi):
+    """The function that does the work: `def f(a, b): return g(a, b)` (all parameters passed on unchanged, in order, nothing else)
+    is g - e.g. an old name kept as a thin alias of a function that moved into a class."""
+    for _ in range(3):
+        b = _body(fi.node)
+        own = _own_params(fi)
+        if not (len(b) == 1 and isinstance(b[0], ast.Return) and isinstance(b[0].value, ast.Call)):
+            break
+        c = b[0].value
+        if c.keywords or [u(a) for a in c.args] != own or not all(isinstance(a, ast.Name) for a in c.args):
+            break
+        t = m.functions.get(m.resolve_call(fi, c) or '')
+        if t is None or t is fi or len(_own_params(t)) != len(own) or not isinstance(t.node, ast.FunctionDef):
+            break
+        fi = t
+    return fi
+
+
+def _raised_class(m, fi, r):
+    """Qualified (reference) name of the class of the exception raised by statement r inside fi: `raise C(...)`, `raise C`, or
+    `raise F(...)` with F a function / classmethod all of whose returns construct one class (an error factory).  None = unknown."""
+    e = r.exc
+    if e is None:
+        return None
+    f = e.func if isinstance(e, ast.Call) else e
+    q = m.resolve(fi.module, f)
+    if q is None and isinstance(e, ast.Call):
+        q = m.resolve_call(fi, e)
+    if q is None:
+        return u(f) if isinstance(f, ast.Name) else None        # a builtin such as ValueError
+    if q in m.classes:
+        return q
+    t = m.functions.get(q)
+    if t is not None and isinstance(e, ast.Call):
+        rets = [s for s in stmts_in(t.node.body) if isinstance(s, ast.Return)]
+        made = set()
+        for s in rets:
+            v = s.value
+            if not isinstance(v, ast.Call):
+                return None
+            if isinstance(v.func, ast.Name) and v.func.id == 'cls' and t.cls is not None and 'classmethod' in {u(d) for d in t.node.decorator_list} \
+                    and isinstance(f, ast.Attribute) and m.resolve(fi.module, f.value) in m.classes:
+                made.add(m.resolve(fi.module, f.value))          # cls is the class the factory was called on
+            else:
+                made.add(m.resolve(t.module, v.func) or (v.func.id if isinstance(v.func, ast.Name) and v.func.id != 'cls' else None))
+        if len(made) == 1 and None not in made and rets and not any(isinstance(n, (ast.Yield, ast.YieldFrom)) for n in ast.walk(t.node)):
+            return made.pop()
+    return None
+
+
 def _parse_expr(text):
     try:
         return ast.parse(text, mode='eval').body
@@ -616,6 +716,58 @@ def _on_every_normal_path(fn, stmt):
     return True
 
 
+def _unroll_constant_loops(m, fi):
+    """fi with every statement-level `for T in <module-level constant sequence>: body` of its body written out once per element
+    (T replaced by the element's literal, the locals the body assigns renamed per pass).  Only loops that are a plain repetition
+    are unrolled: no break / continue / else, the per-pass locals are not read after the loop.  Returns fi itself when nothing
+    qualifies; the rules then meet the loop and decide or report it."""
+    from ..model import FuncInfo
+    fn = fi.node
+    new_body, changed = [], False
+    for s in fn.body:
+        vals = None
+        if isinstance(s, ast.For) and not s.orelse and isinstance(s.iter, (ast.Name, ast.Attribute)) \
+                and not (isinstance(s.iter, ast.Name) and reaching_def(fn, s.iter.id, s) is not None) \
+                and not any(isinstance(n, (ast.Break, ast.Continue, ast.Return, ast.Yield, ast.YieldFrom, ast.FunctionDef, ast.Lambda)) for n in ast.walk(s)):
+            try:
+                vals = m.const_value(fi.module, s.iter)
+            except Undecided:
+                vals = None
+        tnames = [s.target.id] if vals is not None and isinstance(s.target, ast.Name) else \
+            [e.id for e in s.target.elts] if vals is not None and isinstance(s.target, ast.Tuple) and all(isinstance(e, ast.Name) for e in s.target.elts) else None
+        if not (isinstance(vals, (tuple, list)) and 1 <= len(vals) <= 8 and tnames):
+            new_body.append(s)
+            continue
+        if isinstance(s.target, ast.Tuple) and not all(isinstance(v, (tuple, list)) and len(v) == len(tnames) for v in vals):
+            new_body.append(s)
+            continue
+        stored = {n.id for x in s.body for n in ast.walk(x) if isinstance(n, ast.Name) and isinstance(n.ctx, ast.Store)}
+        outside = {n.id for x in fn.body if x is not s for n in ast.walk(x) if isinstance(n, ast.Name)}
+        per_pass = stored - outside                     # locals of one pass; names also used outside (accumulators) keep their name
+        if (stored & outside) - {n.id for x in fn.body if x is not s for n in ast.walk(x) if isinstance(n, ast.Name) and isinstance(n.ctx, ast.Store)} or set(tnames) & outside:
+            new_body.append(s)
+            continue
+        for k, v in enumerate(vals):
+            lits = dict(zip(tnames, [v] if isinstance(s.target, ast.Name) else v))
+            mp_ = {nm: ast.parse(repr(val), mode='eval').body for nm, val in lits.items()}
+
+            class P(ast.NodeTransformer):
+                def visit_Name(self, node):
+                    if node.id in mp_ and isinstance(node.ctx, ast.Load):
+                        return ast.copy_location(copy.deepcopy(mp_[node.id]), node)
+                    if node.id in per_pass:
+                        return ast.copy_location(ast.Name(id=f'{node.id}__u{k}', ctx=node.ctx), node)
+                    return node
+            for x in s.body:
+                new_body.append(ast.fix_missing_locations(P().visit(copy.deepcopy(x))))
+        changed = True
+    if not changed:
+        return fi
+    node = copy.copy(fn)
+    node.body = new_body
+    return FuncInfo(fi.qualname, node, fi.module, fi.cls)
+
+
 class _Rename(ast.NodeTransformer):
     def __init__(self, mp_):
         self.mp = mp_
@@ -642,7 +794,7 @@ class _LocateCtx:
     def __init__(self, m, fi, argmap=None, outer=None, depth=0):
         self.m, self.fi, self.ln = m, fi, fi.node
         self.gml = guard_map(self.ln)
-        self.dl = _Derive(self.ln, self.gml, fi.name, ordered=False)
+        self.dl = _Derive(self.ln, self.gml, fi.name, ordered=False, resolve=lambda f_: m.resolve(fi.module, f_))
         self.helpers = [s for s in self.ln.body if isinstance(s, ast.FunctionDef)]
         self.argmap, self.outer, self.depth = argmap or {}, outer, depth
 
@@ -738,7 +890,60 @@ class _LocateCtx:
             H = m.functions.get(q) if q else None
             if H is not None and H.cls is None and isinstance(H.node, ast.FunctionDef) and H.node is not ln:
                 return self.delegated(rep, H, tv, take, label)
+        if isinstance(tv, ast.Subscript) and isinstance(tv.value, ast.Name) and isinstance(tv.slice, ast.Constant) and isinstance(tv.slice.value, int) and tv.slice.value >= 0 \
+                and self.positional(tv.value.id, take) is not None:
+            return self.file_of_item(rep, tv.value.id, tv.slice.value, None, take, label)
         rep.require(isinstance(mexpr, (ast.Name, ast.ListComp, ast.SetComp)), f'{where}: unrecognised way of taking the single file: {label} = {u(tv)[:80]}')
+        return self.take_from(rep, gr, mexpr, take, label)
+
+    def positional(self, lname, at):
+        """[(kind 'append' | 'extend', argument expression, statement)] for a list that starts empty and grows only by `.append(x)` /
+        `.extend(M)` statements of the function body before `at` (so its k-th item can be told); None for anything else."""
+        ln = self.ln
+        d = reaching_def(ln, lname, at)
+        if not (isinstance(d, ast.Assign) and d in ln.body and len(assigns_to(ln, lname)) == 1 and isinstance(def_value(d), ast.List) and not def_value(d).elts):
+            return None
+        items = []
+        for n in ast.walk(ln):
+            if isinstance(n, ast.Name) and n.id == lname and isinstance(n.ctx, ast.Load):
+                par = self.dl.pm.get(n)
+                call = self.dl.pm.get(par) if isinstance(par, ast.Attribute) else None
+                st = self.dl.pm.get(call) if isinstance(call, ast.Call) else None
+                if isinstance(par, ast.Attribute) and par.attr in ('append', 'extend') and isinstance(call, ast.Call) and call.func is par and len(call.args) == 1 and not call.keywords \
+                        and isinstance(st, ast.Expr) and st in ln.body:
+                    if st.lineno < at.lineno or ln.body.index(st) < block_path(ln, at)[0][1]:
+                        items.append((par.attr, call.args[0], st))
+                    else:
+                        return None
+                elif isinstance(par, ast.Attribute):
+                    return None             # some other method of the list
+        items.sort(key=lambda it: ln.body.index(it[2]))
+        return items or None
+
+    def file_of_item(self, rep, lname, k, n_targets, at, label):
+        """The k-th item of a list grown by append / extend statements.  `extend(M)` contributes exactly one item where
+        `len(M) == 1` is a fact at that statement."""
+        items = self.positional(lname, at)
+        rep.require(items is not None, f'{self.fi.name}: {lname} is not a list grown only by append / extend statements of the function body')
+        if n_targets is not None:
+            rep.require(len(items) == n_targets, f'{self.fi.name}: {lname} receives {len(items)} items but is unpacked into {n_targets} names')
+        rep.require(k < len(items), f'{self.fi.name}: {lname} has no item {k}')
+        for kind, arg, st in items[:k]:
+            if kind == 'extend' and not (isinstance(arg, ast.Name) and ('eq', '1', f'len({arg.id})') in self.facts_at(st)):
+                rep.add('R5', self.fi.site(st), 'every match set added to the list of files holds exactly one file (so the files keep their positions)', False,
+                        expected=f'len({u(arg)}) == 1 established before {u(st)[:40]}', found=sorted(self.facts_at(st)), stmt=f'single [{label}: earlier item]')
+                return None
+        kind, arg, st = items[k]
+        if kind == 'append':
+            return self.file_of(rep, arg, st, label)
+        gr = _FileGroup()
+        gr.fi, gr.take = self.fi, st
+        return self.take_from(rep, gr, arg, st, label)
+
+    def take_from(self, rep, gr, mexpr, take, label):
+        """The file is the single element of collection `mexpr`, taken at statement `take`."""
+        ln, where = self.ln, self.fi.name
+        rep.require(isinstance(mexpr, (ast.Name, ast.ListComp, ast.SetComp)), f'{where}: {label} is taken from {u(mexpr)[:60]}, which is not a local collection')
         mname = mexpr.id if isinstance(mexpr, ast.Name) else u(mexpr)
         if isinstance(mexpr, ast.Name) and reaching_def(ln, mexpr.id, take) is None and assigns_to(ln, mexpr.id):
             rep.add('R5', self.fi.site(take), 'the file is taken from a match set that was built and checked before', False, expected=f'{mexpr.id} built and checked to hold exactly one file first',
@@ -864,7 +1069,7 @@ def check(ctx):
     rep.require(len(rets) == 1 and isinstance(rets[0].value, ast.Tuple) and len(rets[0].value.elts) == 2, 'genomes_by_id_subset: does not return a pair')
     ge, ie = rets[0].value.elts
     gout, iout = u(ge), u(ie)
-    dv = _Derive(fn, gm, 'genomes_by_id_subset')
+    dv = _Derive(fn, gm, 'genomes_by_id_subset', resolve=lambda f_: m.resolve(fi.module, f_))
     G, I = dv.seq_of(ge, rets[0]), dv.seq_of(ie, rets[0])
     rep.require(G is not None and I is not None, f'genomes_by_id_subset: returned lists are not built by a recognised construction (append loop / comprehension): {gout if G is None else iout}')
     rep.floor('R1', 'element sites (append / comprehension element) of the two returned lists in genomes_by_id_subset', len({id(G.site), id(I.site)}), 2)
@@ -961,6 +1166,13 @@ def check(ctx):
         v0 = v
         if isinstance(v, ast.Call) and isinstance(v.func, ast.Name) and v.func.id == 'list' and len(v.args) == 1 and not v.keywords and isinstance(v.args[0], ast.GeneratorExp):
             v = v.args[0]
+        if isinstance(v, ast.Call) and isinstance(v.func, ast.Name) and v.func.id == 'list' and len(v.args) == 1 and not v.keywords and isinstance(v.args[0], ast.Call) \
+                and isinstance(v.args[0].func, ast.Name) and v.args[0].func.id == 'map' and m.resolve(fb.module, v.args[0].func) is None and len(v.args[0].args) == 2 and not v.args[0].keywords:
+            mf, mx = v.args[0].args         # list(map(F, xs))  ==  [F(x) for x in xs]
+            fresh = 'x__map'
+            v = ast.copy_location(ast.ListComp(elt=ast.Call(func=mf, args=[ast.Name(id=fresh, ctx=ast.Load())], keywords=[]),
+                                               generators=[ast.comprehension(target=ast.Name(id=fresh, ctx=ast.Store()), iter=mx, ifs=[], is_async=0)]), v)
+            ast.fix_missing_locations(v)
         okc = isinstance(v, (ast.ListComp, ast.GeneratorExp)) and len(v.generators) == 1 and isinstance(v.generators[0].target, ast.Name)
         rep.require(okc, f'genomes_by_id: return is not a list comprehension: {u(v0)}')
         one2one = not v.generators[0].ifs and _param_origin(fb.node, v.generators[0].iter, r) == ids_b
@@ -996,9 +1208,9 @@ def check(ctx):
     rep.add('R7', fb.site(), 'no id is looked up for a genome set in which some genome has no value for the id attribute', okn,
             expected=f'_check_genomes_have_ids({bp_[0]}, <validated {bp_[1]}>) (or a raise under `None in <id map>`) before every return', found=seen_n, stmt='null-id guard')
     # _check_genomes_have_ids: raises exactly when the count of genomes of the set whose id attribute IS NULL is positive
-    fh = m.func(f'{MOD}._check_genomes_have_ids')
+    fh = _follow_delegation(m, m.func(f'{MOD}._check_genomes_have_ids'))
     rep.functions.add(fh.qualname)
-    hp_ = fh.params()
+    hp_ = _own_params(fh)
     gmh = guard_map(fh.node)
     counts = [c for c in calls_in(fh.node) if callee_attr(c) == 'count' and not c.args and u(c).startswith(f'{hp_[0]}.genomes')]
     rep.require(len(counts) == 1, f'_check_genomes_have_ids: expected one count() query on {hp_[0]}.genomes, found {len(counts)}')
@@ -1026,18 +1238,26 @@ def check(ctx):
             expected=f'{qtext} == 0 on the normal exit', found=sorted(end_h), stmt='null count exit')
 
     # ---------------------------------------------------------------------------------- R2
-    fm = m.func(f'{MOD}._map_ids_to_genomes')
+    fm = _follow_delegation(m, m.func(f'{MOD}._map_ids_to_genomes'))
     rep.functions.add(fm.qualname)
-    mp = fm.params()
+    mp = _own_params(fm)
     rets_m = [s for s in stmts_in(fm.node.body) if isinstance(s, ast.Return)]
-    rep.require(len(rets_m) >= 1 and isinstance(rets_m[-1].value, ast.DictComp), '_map_ids_to_genomes: does not return a dict comprehension')
+    dc = rets_m[-1].value if rets_m else None
+    dkey = dval = None
+    if isinstance(dc, ast.DictComp) and len(dc.generators) == 1:
+        dkey, dval = dc.key, dc.value
+    elif isinstance(dc, ast.Call) and m.resolve(fm.module, dc.func) in (None,) and u(dc.func) == 'dict' and len(dc.args) == 1 and not dc.keywords \
+            and isinstance(dc.args[0], (ast.GeneratorExp, ast.ListComp)) and len(dc.args[0].generators) == 1 \
+            and isinstance(dc.args[0].elt, ast.Tuple) and len(dc.args[0].elt.elts) == 2:
+        dc = dc.args[0]                     # dict((key, value) for ...) is {key: value for ...}
+        dkey, dval = dc.elt.elts
+    rep.require(dkey is not None, f'_map_ids_to_genomes: does not return a dict comprehension / dict(<pairs>): {u(dc)[:80] if dc is not None else None}')
     rep.account_returns('R2', fm, rets_m[-1:], 'id map')
     rets_m = rets_m[-1:]
-    dc = rets_m[0].value
     g = dc.generators[0]
     rep.require(isinstance(g.target, ast.Tuple) and len(g.target.elts) == 2 and not g.ifs, '_map_ids_to_genomes: comprehension target is not a pair')
     ent, col = (u(e) for e in g.target.elts)
-    rep.add('R2', fm.site(rets_m[0]), 'map key is the ID column, value the genome entity', u(dc.key) == col and u(dc.value) == ent, expected=f'{{{col}: {ent}}}', found=f'{{{u(dc.key)}: {u(dc.value)}}}',
+    rep.add('R2', fm.site(rets_m[0]), 'map key is the ID column, value the genome entity', u(dkey) == col and u(dval) == ent, expected=f'{{{col}: {ent}}}', found=f'{{{u(dkey)}: {u(dval)}}}',
             stmt='dict orientation')
     q = g.iter
     qv = q
@@ -1167,10 +1387,23 @@ def check(ctx):
             expected=f'{selfp}.signatures = {sigp}; {selfp}.genomeset = {gsetp}', found=(why_s or got_s, why_gs or got_gs), stmt='stored members')
 
     # ---------------------------------------------------------------------------------- R4
-    fk = m.func(f'{MOD}._check_genome_id_attr')
+    fk = _follow_delegation(m, m.func(f'{MOD}._check_genome_id_attr'))
     rep.functions.add(fk.qualname)
     gmk = guard_map(fk.node)
-    ap = fk.params()[0]
+    rep.require(len(_own_params(fk)) >= 1, f'{fk.name}: no attribute parameter')
+    ap = _own_params(fk)[0]
+
+    def is_id_attrs(text):
+        """Is this expression the whitelist Genome.ID_ATTRS (as `Genome.ID_ATTRS`, or `cls.ID_ATTRS` inside a classmethod of Genome)?"""
+        e_ = _parse_expr(text)
+        if not (isinstance(e_, ast.Attribute) and e_.attr == 'ID_ATTRS'):
+            return False
+        if isinstance(e_.value, ast.Name) and e_.value.id == 'cls' and fk.cls is not None and fk.params()[:1] == ['cls']:
+            return fk.cls.qualname == 'gambit.db.models.Genome'
+        return m.resolve(fk.module, e_.value) == 'gambit.db.models.Genome'
+    rets_k = [s for s in stmts_in(fk.node.body) if isinstance(s, ast.Return)]
+    rep.require(not (len(_body(fk.node)) == 1 and rets_k and isinstance(rets_k[0].value, ast.Call) and not any(isinstance(s, ast.Raise) for s in stmts_in(fk.node.body))),
+                f'{fk.name}: hands the attribute to {u(rets_k[0].value)[:60] if rets_k else None} in a way the rule does not follow (not a plain pass-through of its parameters to a known function)')
     lastk = fk.node.body[-1]
     rep.add('R4', fk.site(lastk), 'anything not whitelisted raises ValueError', isinstance(lastk, ast.Raise) and raised_name(lastk) == 'ValueError', expected='raise ValueError',
             found=u(lastk)[:60], stmt='reject')
@@ -1178,10 +1411,10 @@ def check(ctx):
         rep.require(reaching_def(fk.node, ap, r) is PARAM, f'_check_genome_id_attr: parameter {ap} is rebound before {u(r)[:60]}')
         xg = _xguards(fk.node, gmk[r])
         at = path_atoms(xg)
-        in_whitelist = any(a[0] == 'in' and a[1] == ap and a[2].endswith('ID_ATTRS') for a in at)
+        in_whitelist = any(a[0] == 'in' and a[1] == ap and is_id_attrs(a[2]) for a in at)
         bp = block_path(fk.node, r)
         loop = next((o for (_, _, o) in reversed(bp) if isinstance(o, ast.For)), None)
-        via_loop = loop is not None and u(loop.iter).endswith('ID_ATTRS') and any(a[0] == 'is' and ap in a for a in at)
+        via_loop = loop is not None and is_id_attrs(u(loop.iter)) and any(a[0] == 'is' and ap in a for a in at)
         # `any(attr is getattr(Genome, name) for name in Genome.ID_ATTRS)` holds on the path: the loop above, written as a quantifier
         via_any = False
         for t, p in xg:
@@ -1190,7 +1423,7 @@ def check(ctx):
                         and isinstance(c.args[0], (ast.GeneratorExp, ast.ListComp)) and len(c.args[0].generators) == 1:
                     gen = c.args[0].generators[0]
                     ea = atoms(c.args[0].elt, True) or set()
-                    if u(gen.iter).endswith('ID_ATTRS') and any(a[0] == 'is' and ap in a[1:] for a in ea):
+                    if is_id_attrs(u(gen.iter)) and any(a[0] == 'is' and ap in a[1:] for a in ea):
                         via_any = True
         rep.add('R4', fk.site(r), 'an attribute is accepted only when it is one of Genome.ID_ATTRS', in_whitelist or via_loop or via_any, expected='membership in Genome.ID_ATTRS',
                 found=sorted(at), stmt=r)
@@ -1202,7 +1435,7 @@ def check(ctx):
     rep.add('R4', gcls.site(ida), 'every whitelisted id attribute is a column of Genome', cols_ok and len(names) >= 1, expected='columns', found=names, stmt='ID_ATTRS')
 
     # ---------------------------------------------------------------------------------- R5
-    fl = m.func(f'{MOD}.ReferenceDatabase.locate_files')
+    fl = _unroll_constant_loops(m, m.func(f'{MOD}.ReferenceDatabase.locate_files'))
     rep.functions.add(fl.qualname)
     ln = fl.node
     lastl = ln.body[-1]
@@ -1213,8 +1446,13 @@ def check(ctx):
         for pos, e in enumerate(lastl.value.elts):
             if isinstance(e, ast.Name):
                 ds = assigns_to(ln, e.id)
-                rep.require(len(ds) == 1 and def_value(ds[0]) is not None, f'locate_files: {e.id} is not bound exactly once by a plain assignment')
-                gr = cx.file_of(rep, def_value(ds[0]), ds[0], e.id)
+                unpack = ds[0].targets[0] if len(ds) == 1 and isinstance(ds[0], ast.Assign) and len(ds[0].targets) == 1 and isinstance(ds[0].targets[0], (ast.Tuple, ast.List)) else None
+                if unpack is not None and all(isinstance(t_, ast.Name) for t_ in unpack.elts) and isinstance(ds[0].value, ast.Name) and ds[0] in ln.body:
+                    # a, b = items : the k-th item of a list grown by append / extend statements
+                    gr = cx.file_of_item(rep, ds[0].value.id, [t_.id for t_ in unpack.elts].index(e.id), len(unpack.elts), ds[0], e.id)
+                else:
+                    rep.require(len(ds) == 1 and def_value(ds[0]) is not None, f'locate_files: {e.id} is not bound exactly once by a plain assignment')
+                    gr = cx.file_of(rep, def_value(ds[0]), ds[0], e.id)
             else:
                 gr = cx.file_of(rep, e, lastl, f'result[{pos}]')      # the file expression written in the return itself
             if gr is None:
@@ -1241,8 +1479,10 @@ def check(ctx):
         rep.functions.add(gr.fi.qualname)
         rep.add('R5', gr.fi.site(gr.take), f'{sfx}: the match set is checked to hold exactly one file before one is taken', gr.single_ok, expected=gr.single_expected,
                 found=gr.single_found, stmt=f'single {sfx}')
+        kinds = [_raised_class(m, gr.fi, r) for r in gr.errs]
+        rep.require(None not in kinds, f'{gr.fi.name}: cannot tell which exception class {[u(r)[:60] for r, k_ in zip(gr.errs, kinds) if k_ is None]} raises')
         rep.add('R5', gr.fi.site(gr.errs[0] if gr.errs else gr.take), f'{sfx}: DatabaseLoadError is raised when the number of matches is not 1',
-                bool(gr.errs) and gr.errs_complete and all((raised_name(r) or '').endswith('DatabaseLoadError') for r in gr.errs), expected='raise DatabaseLoadError under len(matches) != 1',
+                bool(gr.errs) and gr.errs_complete and all(k_ == f'{MOD}.DatabaseLoadError' for k_ in kinds), expected='raise DatabaseLoadError under len(matches) != 1',
                 found=[u(r)[:50] for r in gr.errs] + ([] if gr.errs_complete else ['(and a path that neither returns the file nor raises)']), stmt=f'single-match error {sfx}')
         shared_iter = sq.src[0][0] == 'def' and not gr.wrapped and any(o.sq.src[0] == sq.src[0] and o.sq.site is not sq.site for o in groups if o is not gr)
         rep.add('R5', gr.fi.site(sq.site), f'{sfx}: candidates are the direct children of the given directory', sq.elt == ELEM and not sq.notes and not shared_iter
@@ -1275,6 +1515,18 @@ def check(ctx):
         return None, None
     o1 = call_of(ca[0], 1) if len(ca) == 2 else (None, None)
     o2 = call_of(ca[1]) if len(ca) == 2 else (None, None)
+    if len(ca) == 2 and o1 == (None, None):
+        # load_genomeset written out in place (its body expanded into load): compare with what its own definition returns as
+        # second element for this argument
+        fls = _follow_delegation(m, m.func(f'{MOD}.load_genomeset'))
+        rl = [s_ for s_ in stmts_in(fls.node.body) if isinstance(s_, ast.Return)]
+        if len(rl) == 1 and isinstance(rl[0].value, ast.Tuple) and len(rl[0].value.elts) == 2 and len(_own_params(fls)) == 1 and fls.module is fload.module:
+            gs_expr = _rename(_subst(fls.node, rl[0].value.elts[1], rl[0]), {_own_params(fls)[0]: ast.Name(id=lp[1], ctx=ast.Load())})
+            opened = gs_expr.args[0] if isinstance(gs_expr, ast.Call) and len(gs_expr.args) == 1 and not gs_expr.keywords and m.resolve(fls.module, gs_expr.func) == 'gambit.db.models.only_genomeset' else None
+            is_session = isinstance(opened, ast.Call) and not opened.args and not opened.keywords and isinstance(opened.func, ast.Call) \
+                and m.resolve(fls.module, opened.func.func) == 'gambit.db.sqla.file_sessionmaker' and [u(a) for a in opened.func.args] == [lp[1]]
+            if u(gs_expr) == u(ca[0]) and is_session and reaching_def(fls.node, _own_params(fls)[0], rl[0]) is PARAM:
+                o1 = (f'{MOD}.load_genomeset', [lp[1]])
     rep.add('R6', fload.site(retl[0]), 'load() builds the database from the genome set of the genome file and the signatures of the signature file',
             u(ctor.func) == 'cls' and len(ctor.args) == 2 and not ctor.keywords and o1 == (f'{MOD}.load_genomeset', [lp[1]]) and o2 == ('gambit.sigs.base.load_signatures', [lp[2]]),
             expected=f'cls(load_genomeset({lp[1]})[1], load_signatures({lp[2]}))', found=[u(a) for a in ca], stmt='load')
@@ -1420,6 +1672,57 @@ _ONLY_LAZY = _EXT_CONSTS + """def _the_only(directory, exts, desc):
 
 
 """
+_M = 'src/gambit/db/models.py'
+_CHECKATTR_OLD = """\tif isinstance(attr, str) and attr in Genome.ID_ATTRS:
+\t\treturn getattr(Genome, attr)
+
+\telif isinstance(attr, InstrumentedAttribute):
+\t\tfor allowed_name in Genome.ID_ATTRS:
+\t\t\tallowed = getattr(Genome, allowed_name)
+\t\t\tif attr is allowed:
+\t\t\t\treturn attr
+
+\traise ValueError('Genome ID attribute must be one of the following: ' + ', '.join(Genome.ID_ATTRS))
+"""
+_GENOME_REPR = "\tdef __repr__(self):\n\t\treturn f'<{type(self).__name__}:{self.id} {self.key!r}>'\n\n\nclass ReferenceGenomeSet(Base):"
+_MOVED_CHECK = """\tdef __repr__(self):
+\t\treturn f'<{type(self).__name__}:{self.id} {self.key!r}>'
+
+\t@classmethod
+\tdef validated_id_attr(cls, attr):
+\t\tfrom sqlalchemy.orm.attributes import InstrumentedAttribute
+\t\tif isinstance(attr, str) and attr in cls.ID_ATTRS:
+\t\t\treturn getattr(cls, attr)
+
+\t\telif isinstance(attr, InstrumentedAttribute):
+\t\t\tfor allowed_name in cls.ID_ATTRS:
+\t\t\t\tallowed = getattr(cls, allowed_name)
+\t\t\t\tif attr is allowed:
+\t\t\t\t\treturn attr
+
+\t\traise ValueError('Genome ID attribute must be one of the following: ' + ', '.join(cls.ID_ATTRS))
+
+
+class ReferenceGenomeSet(Base):"""
+_COMPRESS_IMPORT = ("from pathlib import Path\n", "from itertools import compress\nfrom pathlib import Path\n")
+_LOCATE_TABLE = """\t\tfound = []
+
+\t\tfor what, exts in _FILE_KINDS:
+\t\t\tcandidates = {f for f in path.iterdir() if f.suffix in exts}
+\t\t\tif len(candidates) != 1:
+\t\t\t\traise DatabaseLoadError.bad_count(len(candidates), what, path)
+\t\t\tfound.extend(candidates)
+
+\t\tgenomes_file, signatures_file = found
+"""
+_KINDS_CONST = "_FILE_KINDS = (\n\t('genome database (.gdb or .db)', ('.gdb', '.db')),\n\t('signature (.gs or .h5)', ('.gs', '.h5')),\n)\n\n\n"
+_ERR_CLASS_DEF = "class DatabaseLoadError(Exception):\n"
+_ERR_INIT_TAIL = "\t\tself.genomes_file = genomes_file\n\t\tself.signatures_file = signatures_file\n"
+_ERR_FACTORY = _ERR_INIT_TAIL + "\n\t@classmethod\n\tdef bad_count(cls, n, what, directory):\n\t\treturn cls(f'{\"Multiple\" if n else \"No\"} {what} files found in directory {directory}', directory=directory)\n"
+_LOADSET_OLD = "def load_genomeset(db_file: 'FilePath') -> tuple[Session, ReferenceGenomeSet]:\n\t\"\"\"Get the only :class:`gambit.db.models.ReferenceGenomeSet` from a genomes database file.\"\"\"\n\tsession = file_sessionmaker(db_file)()\n\tgset = only_genomeset(session)\n\treturn session, gset\n"
+_LOADSET_ALIAS = "def load_genomeset(db_file: 'FilePath') -> tuple[Session, ReferenceGenomeSet]:\n\treturn ReferenceDatabase.open_genomeset(db_file)\n"
+_LOCATE_DECO = "\t@classmethod\n\tdef locate_files(cls, path: 'FilePath') -> tuple[Path, Path]:\n"
+_OPEN_STATIC = "\t@staticmethod\n\tdef open_genomeset(db_file):\n\t\tsession = file_sessionmaker(db_file)()\n\t\tgset = only_genomeset(session)\n\t\treturn session, gset\n\n"
 _LOCATE_OLD = """\t\tdef check_single_match(matches, desc: str):
 \t\t\tn = len(matches)
 \t\t\tif n != 1:
@@ -1645,4 +1948,37 @@ VARIANTS = [
       _LOCATE_LISTED.replace("\t\t\tmatches = [f for f in files if f.suffix in extensions]\n", "\t\t\tmatches = []\n\t\t\tfor f in files:\n\t\t\t\tif f.suffix in extensions:\n\t\t\t\t\tmatches.append(f)\n")),
     V('listed once, append-loop helper accepts several', 'B', _R, _LOCATE_OLD,
       _LOCATE_LISTED.replace("\t\t\tmatches = [f for f in files if f.suffix in extensions]\n", "\t\t\tmatches = []\n\t\t\tfor f in files:\n\t\t\t\tif f.suffix in extensions:\n\t\t\t\t\tmatches.append(f)\n").replace("if len(matches) == 1:", "if len(matches) >= 1:"), 'R5'),
+    # ---- third pass: code moved behind thin aliases, library-call spellings, table-driven loop
+    V('E: whitelist check moved into a classmethod of Genome, old name kept as a def alias', 'E', _R, _CHECKATTR_OLD, "\treturn Genome.validated_id_attr(attr)\n", also=((_M, _GENOME_REPR, _MOVED_CHECK),)),
+    V('moved whitelist check lost the membership test', 'B', _R, _CHECKATTR_OLD, "\treturn Genome.validated_id_attr(attr)\n", 'R4',
+      also=((_M, _GENOME_REPR, _MOVED_CHECK.replace("if isinstance(attr, str) and attr in cls.ID_ATTRS:", "if isinstance(attr, str):")),)),
+    V('moved whitelist check accepts any attribute object', 'B', _R, _CHECKATTR_OLD, "\treturn Genome.validated_id_attr(attr)\n", 'R4',
+      also=((_M, _GENOME_REPR, _MOVED_CHECK.replace("\t\t\t\tif attr is allowed:\n\t\t\t\t\treturn attr\n", "\t\t\t\tpass\n\t\t\treturn attr\n")),)),
+    V('E: boolean selector list and two itertools.compress calls', 'E', _R, _SUBSET_OLD,
+      "\tmatched = [g is not None for g in genomes]\n\tgenomes_out = list(compress(genomes, matched))\n\tidxs_out = list(compress(range(len(genomes)), matched))\n", also=((_R,) + _COMPRESS_IMPORT,)),
+    V('compress: selectors mark the unmatched ids', 'B', _R, _SUBSET_OLD,
+      "\tmatched = [g is None for g in genomes]\n\tgenomes_out = list(compress(genomes, matched))\n\tidxs_out = list(compress(range(len(genomes)), matched))\n", 'R1', also=((_R,) + _COMPRESS_IMPORT,)),
+    V('compress: index list compresses the genomes too', 'B', _R, _SUBSET_OLD,
+      "\tmatched = [g is not None for g in genomes]\n\tgenomes_out = list(compress(genomes, matched))\n\tidxs_out = list(compress(genomes, matched))\n", 'R1', also=((_R,) + _COMPRESS_IMPORT,)),
+    V('E: lookup list as list(map(<selected function>, ids))', 'E', _R, _BYID_OLD, "\treturn list(map(d.__getitem__ if strict else d.get, ids))\n"),
+    V('list(map()) with the selected functions swapped', 'B', _R, _BYID_OLD, "\treturn list(map(d.get if strict else d.__getitem__, ids))\n", 'R1'),
+    V('list(map()) over the sorted ids', 'B', _R, _BYID_OLD, "\treturn list(map(d.__getitem__ if strict else d.get, sorted(ids)))\n", 'R1'),
+    V('E: id map built with dict(<generator of pairs>)', 'E', _R, "return {id_: g for g, id_ in q}", "return dict((id_, g) for g, id_ in q)"),
+    V('dict(<generator of pairs>) with the pair swapped', 'B', _R, "return {id_: g for g, id_ in q}", "return dict((g, id_) for g, id_ in q)", 'R2'),
+    V('E: table-driven locate_files (loop over a module constant, error from a factory classmethod, files collected in order)', 'E', _R, _LOCATE_OLD, _LOCATE_TABLE,
+      also=((_R, _ERR_CLASS_DEF, _KINDS_CONST + _ERR_CLASS_DEF), (_R, _ERR_INIT_TAIL, _ERR_FACTORY))),
+    V('table-driven: only several files are refused', 'B', _R, _LOCATE_OLD, _LOCATE_TABLE.replace("if len(candidates) != 1:", "if len(candidates) > 1:"), 'R5',
+      also=((_R, _ERR_CLASS_DEF, _KINDS_CONST + _ERR_CLASS_DEF), (_R, _ERR_INIT_TAIL, _ERR_FACTORY))),
+    V('table-driven: the table lists the signature kind first', 'B', _R, _LOCATE_OLD, _LOCATE_TABLE, 'R5',
+      also=((_R, _ERR_CLASS_DEF, "_FILE_KINDS = (\n\t('signature (.gs or .h5)', ('.gs', '.h5')),\n\t('genome database (.gdb or .db)', ('.gdb', '.db')),\n)\n\n\n" + _ERR_CLASS_DEF), (_R, _ERR_INIT_TAIL, _ERR_FACTORY))),
+    V('table-driven: files unpacked crossed', 'B', _R, _LOCATE_OLD, _LOCATE_TABLE.replace("genomes_file, signatures_file = found", "signatures_file, genomes_file = found"), 'R5',
+      also=((_R, _ERR_CLASS_DEF, _KINDS_CONST + _ERR_CLASS_DEF), (_R, _ERR_INIT_TAIL, _ERR_FACTORY))),
+    V('table-driven: the error factory builds another exception class', 'B', _R, _LOCATE_OLD, _LOCATE_TABLE, 'R5',
+      also=((_R, _ERR_CLASS_DEF, _KINDS_CONST + _ERR_CLASS_DEF), (_R, _ERR_INIT_TAIL, _ERR_FACTORY.replace("return cls(f'", "return RuntimeError(f'").replace(", directory=directory)", ")")))),
+    V('E: load_genomeset moved into a staticmethod, module function kept as alias, load() uses the method', 'E', _R, _LOADSET_OLD, _LOADSET_ALIAS,
+      also=((_R, _LOCATE_DECO, _OPEN_STATIC + _LOCATE_DECO), (_R, "session, gset = load_genomeset(genomes_file)", "session, gset = cls.open_genomeset(genomes_file)"))),
+    V('moved load_genomeset: load() hands the session to the constructor', 'B', _R, _LOADSET_OLD, _LOADSET_ALIAS, 'R6',
+      also=((_R, _LOCATE_DECO, _OPEN_STATIC + _LOCATE_DECO), (_R, "session, gset = load_genomeset(genomes_file)", "gset, session = cls.open_genomeset(genomes_file)"))),
+    V('moved load_genomeset: opens the signatures path', 'B', _R, _LOADSET_OLD, _LOADSET_ALIAS, 'R6',
+      also=((_R, _LOCATE_DECO, _OPEN_STATIC + _LOCATE_DECO), (_R, "session, gset = load_genomeset(genomes_file)", "session, gset = cls.open_genomeset(signatures_file)"))),
 ]
